@@ -194,8 +194,7 @@ def general_moves(m):
                     nxt.update(adjacent_options(cur, min(k, k + step)))
                 frontier, k = nxt, k + step
                 out.update(frontier)
-    out.discard(m)
-    return out
+    return out      # may contain m itself: exchanging two equal boxes gives an equal diagram
 
 
 def is_single_move(prev, nxt):
